@@ -233,16 +233,21 @@ def conjuncts(f, e, truth):
     return []
 
 
+def _gt(e):
+    """guard operand text: reborrow chains and checked-arithmetic spelling normalised, as in site keys"""
+    return expr_str(strip(norm_arith(norm_refs(e))), -10)
+
+
 def build_zone(f, bb, operand_exprs):
     z = Zone()
     facts = guard_facts(f, bb)
     txt = []
     for (op, a, b) in facts:
         if op in ('IsEmpty',) or str(op).startswith('Call:'):
-            txt.append('%s(%s)=%s' % (op, expr_str(strip(a), -10)[:50] if a is not None else '', b))
+            txt.append('%s(%s)=%s' % (op, _gt(a)[:50] if a is not None else '', b))
             continue
         la, lb = lin(a), lin(b)
-        txt.append('%s(%s, %s)' % (op, expr_str(strip(a), -10)[:60], expr_str(strip(b), -10)[:60]))
+        txt.append('%s(%s, %s)' % (op, _gt(a)[:60], _gt(b)[:60]))
         if op == 'Ge':
             z.add_lin_ge(la, lb, 0)
         elif op == 'Gt':
@@ -378,7 +383,8 @@ def upper_by_type(f, e, depth=0):
         if op in ('Add', 'AddWithOverflow') and a != INF and b != INF:
             return a + b
         if op in ('Sub', 'SubWithOverflow'):
-            return a
+            lb = lower_by_type(f, e[3])
+            return a - lb if a != INF and lb <= a else a
         if op == 'Div':
             if b not in (INF, 0):
                 return (a if a != INF else (1 << 64) - 1) // b
@@ -401,6 +407,9 @@ def upper_by_type(f, e, depth=0):
         hi = _const_range_hi(e[1][2][0])
         if hi is not None:
             return hi - 1
+    if e[0] == 'proj' and tuple(e[2])[:2] == ('as Some', '0') and len(e[2]) == 3 and e[2][2] in ('0', '1') and isinstance(e[1], tuple) \
+            and e[1][0] == 'call' and e[1][1] == "<bitstr::Iter8<'a> as core::iter::traits::iterator::Iterator>::next":
+        return 255 if e[2][2] == '0' else 8         # an iter8 item is (byte value, width <= 8)
     if e[0] == 'proj' and e[2] and e[2][-1] in ('0', '1') and isinstance(e[1], tuple) and e[1][0] == 'call':
         # cut_bits(..) -> (u8, usize<=8) ; iter8 item (u8, u32<=8)
         n = e[1][1]
@@ -409,7 +418,21 @@ def upper_by_type(f, e, depth=0):
     if e[0] == 'phi':
         ups = [upper_by_type(f, x, depth + 1) for x in e[1]]
         return max(ups) if ups else INF
+    if e[0] == 'proj' and isinstance(e[1], tuple) and e[1][0] == 'arg' and e[1][1] == 2 and tuple(e[2]) in (('0',), ('1',)) \
+            and closure_item_of_iter8(_FXG[0], f):
+        return 255 if e[2][0] == '0' else 8
     return INF
+
+
+def lower_by_type(f, e):
+    """a lower bound known from what the value is (0 if nothing is known)"""
+    e = strip(e)
+    if isinstance(e, tuple) and e[0] == 'proj' and isinstance(e[1], tuple) and e[1][0] == 'arg' and e[1][1] == 2 and tuple(e[2]) == ('1',) \
+            and closure_item_of_iter8(_FXG[0], f):
+        return 1
+    if isinstance(e, tuple) and e[0] == 'const' and isinstance(e[1].get('v'), int) and e[1]['v'] >= 0:
+        return e[1]['v']
+    return 0
 
 
 RANGE_ADAPTERS = ('<I as core::iter::traits::collect::IntoIterator>::into_iter', 'core::iter::traits::iterator::Iterator::rev')
@@ -551,8 +574,47 @@ def sites_of(f, only_blocks=None):
                        'callee': c, 'exp': t.get('exp')}
 
 
+_FXG = [None]
+_VIEW = [None]
+ITEM_ADAPTORS = ('core::iter::traits::iterator::Iterator::map', 'core::iter::traits::iterator::Iterator::for_each',
+                 'core::iter::traits::iterator::Iterator::filter', 'core::iter::traits::iterator::Iterator::filter_map',
+                 'core::iter::traits::iterator::Iterator::take_while', 'core::iter::traits::iterator::Iterator::skip_while',
+                 'core::iter::traits::iterator::Iterator::all', 'core::iter::traits::iterator::Iterator::any',
+                 'core::iter::traits::iterator::Iterator::position', 'core::iter::traits::iterator::Iterator::find')
+_ITEM_MEMO = {}
+
+
+def closure_item_of_iter8(fx, f):
+    """is parameter 2 of closure f the item of a `Bitstr::iter8()` walk (closure handed to an iterator adaptor whose
+    receiver is iter8() itself)?  Items are (byte value, width) with width in 1..=8: Iter8::next takes the width from
+    cut_bits (<= 8, re-derived on every run through upper_by_type of its return value) and yields None when no bit is left."""
+    if fx is None or '{closure' not in f.name:
+        return False
+    if f.name in _ITEM_MEMO:
+        return _ITEM_MEMO[f.name]
+    res = False
+    parent = fx.fns.get(f.name.rsplit('::{closure', 1)[0])
+    if parent is not None:
+        for bb, t in parent.calls():
+            if callee_of(t) in ITEM_ADAPTORS and len(t['args']) == 2:
+                clo = [x for x in expr_walk(parent.expr_of_operand(t['args'][1])) if isinstance(x, tuple) and x[0] == 'closure']
+                cst = t['args'][1].get('c', {}).get('closure')
+                if (clo and clo[0][1] == f.name) or cst == f.name:
+                    recv = strip(parent.expr_of_operand(t['args'][0]))
+                    if isinstance(recv, tuple) and recv[0] == 'call' and recv[1] == 'bitstr::Bitstr::iter8':
+                        nx = fx.fns.get("<bitstr::Iter8<'a> as core::iter::traits::iterator::Iterator>::next")
+                        if nx is not None:
+                            widths = [x[3][0][3][1] for x in expr_walk(nx.expr_of_local(0))
+                                      if isinstance(x, tuple) and x[0] == 'agg' and x[2] == 'Some' and x[3] and isinstance(x[3][0], tuple)
+                                      and x[3][0][0] == 'agg' and len(x[3][0][3]) == 2]
+                            res = bool(widths) and all(upper_by_type(nx, w) <= 8 for w in widths)
+    _ITEM_MEMO[f.name] = res
+    return res
+
+
 def auto_discharge(fx, f, s, tainted_params):
     """returns (rule, why) or None"""
+    _FXG[0] = fx
     kind = s['kind']
     ops = s['ops']
     if kind.startswith('Overflow(') or kind in ('OverflowNeg', 'DivisionByZero', 'RemainderByZero', 'BoundsCheck'):
@@ -975,6 +1037,18 @@ def try_discharge(fx, f, s, key, tainted_params, table, used):
             _, gtxt = build_zone(f, s['bb'], s['ops'])
             hay = ' ; '.join(gtxt) + ' ; ' + ' ; '.join(_calls_dominating(f, s['bb']))
             ok_needs = all(n_.strip() in hay for n_ in needs.split('&&'))
+            if not ok_needs and not getattr(f, 'inlined', None) and f.name in fx.fns:
+                # the guard may have moved into an unnamed helper called before the site: look again with helpers spliced in
+                if _VIEW[0] is None or _VIEW[0].fx is not fx:
+                    _VIEW[0] = inline.View(fx)
+                vf = _VIEW[0](f.name)
+                if vf is not f and getattr(vf, 'inlined', None):
+                    for s2 in sites_of(vf):
+                        if s2['kind'] == s['kind'] and s2.get('at') == s.get('at') and not s2['term'].get('inl'):
+                            _, g2 = build_zone(vf, s2['bb'], s2['ops'])
+                            hay2 = ' ; '.join(g2) + ' ; ' + ' ; '.join(_calls_dominating(vf, s2['bb']))
+                            if all(n_.strip() in hay2 for n_ in needs.split('&&')):
+                                ok_needs = True
         if ok_needs:
             return ('D-REVIEWED', reason + ('' if needs in ('', '-') else ' [guard re-checked: %s]' % needs)), None
         return None, (needs, reason)
@@ -986,7 +1060,9 @@ def discharge_in_callers(fx, s, tainted_params, table, used, vocab):
     spliced into each caller and the site must be discharged there (automatic rules, or the caller's reviewed entry -
     the key a site had before it was moved into the helper)."""
     fn = s['fn']
-    if fn in vocab or '{closure' in fn:
+    if '{closure' in fn:
+        return discharge_closure_in_parent(fx, s, tainted_params, table, used)
+    if fn in vocab:
         return None
     callers = sorted(c for c in fx.callers().get(fn, ()) if c in fx.fns)
     if not callers or len(callers) > 6:
@@ -1011,6 +1087,52 @@ def discharge_in_callers(fx, s, tainted_params, table, used, vocab):
             if not hit:
                 return None
     return 'D-CALLER', 'helper judged in each caller with its arguments substituted (%s)' % '; '.join(sorted(set(whys)))
+
+
+# closure parameter 2 in terms of the receiver of the combinator the closure is handed to
+_COMBINATOR_PARAM = {
+    'core::result::Result::<T, E>::map_err': ('as Err', '0'), 'core::result::Result::<T, E>::or_else': ('as Err', '0'),
+    'core::result::Result::<T, E>::unwrap_or_else': ('as Err', '0'),
+    'core::result::Result::<T, E>::map': ('as Ok', '0'), 'core::result::Result::<T, E>::and_then': ('as Ok', '0'),
+    'core::option::Option::<T>::map': ('as Some', '0'), 'core::option::Option::<T>::and_then': ('as Some', '0'),
+    'core::option::Option::<T>::ok_or_else': None, 'core::option::Option::<T>::unwrap_or_else': None, 'core::option::Option::<T>::or_else': None,
+}
+
+
+def discharge_closure_in_parent(fx, s, tainted_params, table, used):
+    """A `call:` / `panic:` site inside a closure that is handed to a Result/Option combinator is the same computation as the
+    match arm it replaces: its operands are rewritten in the enclosing function's terms (captures -> the captured values,
+    the closure parameter -> the payload of the combinator's receiver) and judged there, under the key that form has."""
+    from ..core import expr_subst_args, simplify
+    from ..logfx import _subst_upvars, _closure_of
+    if not (s['kind'].startswith('call:') or s['kind'].startswith('panic:')):
+        return None
+    cname = s['fn']
+    parent = fx.fns.get(cname.rsplit('::{closure', 1)[0])
+    if parent is None:
+        return None
+    for bb, t in parent.calls():
+        c = callee_of(t)
+        if c not in _COMBINATOR_PARAM or len(t['args']) != 2:
+            continue
+        cl = _closure_of(parent.expr_of_operand(t['args'][1]))
+        if cl is None or cl[0] != cname:
+            continue
+        recv = parent.expr_of_operand(t['args'][0])
+        sel = _COMBINATOR_PARAM[c]
+        param = ('proj', recv, sel) if sel else None
+        ops2 = []
+        for o in s['ops']:
+            o2 = _subst_upvars(o, cl[1])
+            if param is not None:
+                o2 = expr_subst_args(o2, [('arg', 1), param])
+            ops2.append(simplify(norm_refs(o2)))
+        s2 = dict(s, fn=parent.name, bb=bb, ops=ops2, raw=[])
+        key2 = site_key(parent.name, s['kind'], sig_of(parent, ops2))
+        res, stale = try_discharge(fx, parent, s2, key2, tainted_params, table, used)
+        if res is not None:
+            return 'D-CALLER', 'closure judged as the match arm of %s it stands for (%s)' % (short(parent.name), res[0])
+    return None
 
 
 def _next_nonws_filters(fx):
